@@ -54,7 +54,7 @@ Definition C12_full_statement : Prop :=
 (* non-vacuity on the serial model: cycles of length 1, 2, 3 behind a prefix, from every entry *)
 Example C12_example :
   let mk deps p := {| s_deps := deps; s_ifcreate := []; s_always := false; s_stamp := false;
-                      s_out := OStdout; s_payload := p; s_cat := false; s_exit := 0%Z |} in
+                      s_out := OStdout; s_payload := p; s_cat := false; s_exit := 0%Z; s_tol := false |} in
   let a := [97] in let b := [98] in let c := [99] in let p := [112] in let s := [115] in
   let proj := [SWriteDo (a ++ b_do) (mk [b] 1); SWriteDo (b ++ b_do) (mk [c] 2); SWriteDo (c ++ b_do) (mk [a] 3);
                SWriteDo (p ++ b_do) (mk [a] 4); SWriteDo (s ++ b_do) (mk [s] 5)] in
